@@ -10,19 +10,85 @@ import (
 
 	"github.com/smart-core-os/sc-api/go/traits"
 	"github.com/smart-core-os/sc-golang/pkg/trait/countpb"
+	"github.com/smart-core-os/sc-golang/pkg/trait/enterleavesensorpb"
 )
 
 // C02 on a trait that is all read-modify-write: countpb's delta updates. Concurrent callers add to the same counters; a
 // call either reports a lost race and changes nothing, or its delta is counted exactly once.
 
 func init() {
-	register(&Scenario{Name: "lin-count", Prop: "C02", Doc: "2-4 callers issue 1-3 UpdateCount(delta) each on one countpb device (directly and through the wrapped API), interleaved at every window of the underlying Value write; every result is the sum of some subset of the deltas that contains the call's own; the final counters equal the sum of the successful deltas",
+	register(&Scenario{Name: "lin-count", Prop: "C02", Doc: "(in a third of the runs the same on the enter/leave model: concurrent ENTER / LEAVE events, totals = successes) 2-4 callers issue 1-3 UpdateCount(delta) each on one countpb device (directly and through the wrapped API), interleaved at every window of the underlying Value write; every result is the sum of some subset of the deltas that contains the call's own; the final counters equal the sum of the successful deltas",
 		Run:  linCountRun,
 		Real: []string{"pkg/trait/countpb MemoryDevice (delta interceptor)", "pkg/resource Value, GetAndUpdate", "pkg/wrap"}, Stub: []string{"caller tasks"}})
 }
 
+// linEnterLeaveRun: the same on the enter/leave model, whose totals are maintained by an interceptor of its own.
+func linEnterLeaveRun(w *World) {
+	t := w.Tape
+	m := enterleavesensorpb.NewModel()
+	type call struct {
+		enter bool
+		code  codes.Code
+	}
+	var calls []*call
+	nt := 2 + t.Choose(3)
+	for i := 0; i < nt; i++ {
+		k := 1 + t.Choose(3)
+		var mine []*call
+		for j := 0; j < k; j++ {
+			c := &call{enter: t.Flag(1, 2)}
+			mine = append(mine, c)
+			calls = append(calls, c)
+		}
+		w.Go(fmt.Sprintf("c%d", i), false, func(task *Task) {
+			for _, c := range mine {
+				task.Yield("op")
+				dir := traits.EnterLeaveEvent_LEAVE
+				if c.enter {
+					dir = traits.EnterLeaveEvent_ENTER
+				}
+				err := m.CreateEnterLeaveEvent(&traits.EnterLeaveEvent{Direction: dir})
+				c.code = status.Code(err)
+				task.Note("%v -> %s", dir, c.code)
+			}
+		})
+	}
+	w.Run()
+	if w.truncated {
+		return
+	}
+	if w.Deadlocked || len(w.Unfinished(false)) > 0 {
+		w.Violate("writer-stuck", "callers did not finish: "+strings.Join(w.Unfinished(true), ","), map[string]any{"resource": "enterleavesensorpb"})
+		return
+	}
+	w.MarkNontrivial()
+	var enters, leaves int32
+	for _, c := range calls {
+		switch c.code {
+		case codes.OK:
+			if c.enter {
+				enters++
+			} else {
+				leaves++
+			}
+		case codes.Aborted, codes.Unavailable, codes.FailedPrecondition:
+		default:
+			w.Violate("unexpected-status", fmt.Sprintf("CreateEnterLeaveEvent answered %s", c.code), map[string]any{"resource": "enterleavesensorpb"})
+		}
+	}
+	final, _ := m.GetEnterLeaveEvent()
+	if final.GetEnterTotal() != enters || final.GetLeaveTotal() != leaves {
+		w.Violate("lost-update", fmt.Sprintf("enterleavesensorpb: totals are enter=%d leave=%d, but %d ENTER and %d LEAVE events reported success", final.GetEnterTotal(), final.GetLeaveTotal(), enters, leaves),
+			map[string]any{"resource": "enterleavesensorpb"})
+	}
+}
+
 func linCountRun(w *World) {
 	t := w.Tape
+	if t.Flag(1, 3) {
+		linEnterLeaveRun(w)
+		return
+	}
 	dev := countpb.NewMemoryDevice()
 	var api traits.CountApiClient
 	if t.Flag(1, 3) {
